@@ -13,13 +13,14 @@ pub mod world {
     pub struct World {
         pub keys: [KeyRec; NK], pub vals: [ValRec; NK],
         pub nb: u64, pub heads: [u64; 2], pub count: u64,
+        pub dirty: [bool; 3], pub flushed: [u32; 3], pub synced: [u32; 3], pub order: [u8; 6], pub norder: usize, pub fault_at: u8, pub calls: u8,
         pub bad: bool, // contract violation by the caller (dangling offset, double free...)
         pub key_freed: u32, pub val_freed: u32,
     }
     pub static mut W: World = World {
         keys: [KeyRec { used: false, off: 0, key: [0; KMAX], klen: 0, val_off: 0, next: 0 }; NK],
         vals: [ValRec { used: false, off: 0, val: [0; VMAX], vlen: 0 }; NK],
-        nb: 1, heads: [0; 2], count: 0, bad: false, key_freed: 0, val_freed: 0,
+        nb: 1, heads: [0; 2], count: 0, dirty: [false; 3], flushed: [0; 3], synced: [0; 3], order: [0; 6], norder: 0, fault_at: 255, calls: 0, bad: false, key_freed: 0, val_freed: 0,
     };
     pub fn w() -> &'static mut World { unsafe { &mut *core::ptr::addr_of_mut!(W) } }
     pub fn fresh_off(is_key: bool) -> u64 {
@@ -39,6 +40,16 @@ pub mod world {
         #[cfg(not(kani))]
         { 0 }
     }
+    /// store `who` (0 val, 1 key, 2 htx) is asked to flush (kind 0) / sync_all (1) / sync_data (2)
+    pub fn flush_req(who: usize, kind: u8) -> std::io::Result<()> {
+        let w = w();
+        let c = w.calls; w.calls += 1;
+        if c == w.fault_at { return Err(std::io::Error::from(std::io::ErrorKind::Other)); }
+        w.dirty[who] = false; w.flushed[who] += 1; if kind != 0 { w.synced[who] += 1; }
+        if w.norder < 6 { w.order[w.norder] = who as u8; w.norder += 1; }
+        Ok(())
+    }
+    pub fn touch(who: usize) { w().dirty[who] = true; }
     pub fn kfind(off: u64) -> Option<usize> { let w = w(); let mut i = 0; while i < NK { if w.keys[i].used && w.keys[i].off == off { return Some(i); } i += 1; } None }
     pub fn vfind(off: u64) -> Option<usize> { let w = w(); let mut i = 0; while i < NK { if w.vals[i].used && w.vals[i].off == off { return Some(i); } i += 1; } None }
     pub fn kalloc() -> usize { let w = w(); let mut i = 0; while i < NK { if !w.keys[i].used { return i; } i += 1; } #[cfg(kani)] kani::assume(false); 0 }
@@ -77,9 +88,9 @@ pub mod filedb {
             impl<KT: DbMapKeyType> KeyFile<KT> {
                 pub fn open_with_params<P: AsRef<Path>>(_p: P, _n: &str, _s: [u8; 8], _pa: &crate::filedb::FileDbParams) -> Result<Self> { Ok(Self(Rc::new(RefCell::new(KeyInner(PhantomData))))) }
                 pub fn read_fill_buffer(&self) -> Result<()> { Ok(()) }
-                pub fn flush(&self) -> Result<()> { Ok(()) }
-                pub fn sync_all(&self) -> Result<()> { Ok(()) }
-                pub fn sync_data(&self) -> Result<()> { Ok(()) }
+                pub fn flush(&self) -> Result<()> { flush_req(1, 0) }
+                pub fn sync_all(&self) -> Result<()> { flush_req(1, 1) }
+                pub fn sync_data(&self) -> Result<()> { flush_req(1, 2) }
                 pub(crate) fn piece_offset_iter(&self) -> KeyPieceOffsetIter { KeyPieceOffsetIter(0) }
                 pub(crate) fn read_piece_only_size(&self, off: KeyPieceOffset) -> Result<KeyPieceSize> { let _ = idx(off); Ok(KeyPieceSize::new(16)) }
                 pub fn read_piece_only_key_length(&self, off: KeyPieceOffset) -> Result<KeyLength> { Ok(KeyLength::new(w().keys[idx(off)].klen as u32)) }
@@ -94,14 +105,14 @@ pub mod filedb {
                     let i = idx(piece.offset);
                     #[cfg(kani)]
                     { let reloc: bool = kani::any(); if reloc { let o = fresh_off(true); kani::assume(o != piece.offset.as_value()); w().keys[i].off = o; piece.offset = KeyPieceOffset::new(o); } }
-                    let r = &mut w().keys[i];
+                    touch(1); let r = &mut w().keys[i];
                     r.val_off = piece.value_offset.as_value();
                     r.next = piece.bucket_next_offset.as_value();
                     Ok(piece)
                 }
-                pub fn delete_piece(&self, off: KeyPieceOffset) -> Result<KeyPieceSize> { let i = idx(off); w().keys[i].used = false; w().key_freed += 1; Ok(KeyPieceSize::new(16)) }
+                pub fn delete_piece(&self, off: KeyPieceOffset) -> Result<KeyPieceSize> { touch(1); let i = idx(off); w().keys[i].used = false; w().key_freed += 1; Ok(KeyPieceSize::new(16)) }
                 pub fn add_key_piece(&self, key: &KT, value_offset: ValuePieceOffset, next: KeyPieceOffset) -> Result<KeyPiece<KT>> {
-                    let i = kalloc();
+                    touch(1); let i = kalloc();
                     let o = fresh_off(true);
                     let kb = key.as_bytes();
                     #[cfg(kani)] kani::assume(kb.len() <= KMAX);
@@ -132,9 +143,9 @@ pub mod filedb {
             impl ValueFile {
                 pub fn open_with_params<P: AsRef<Path>>(_p: P, _n: &str, _s: [u8; 8], _pa: &crate::filedb::FileDbParams) -> Result<Self> { Ok(ValueFile) }
                 pub fn read_fill_buffer(&self) -> Result<()> { Ok(()) }
-                pub fn flush(&self) -> Result<()> { Ok(()) }
-                pub fn sync_all(&self) -> Result<()> { Ok(()) }
-                pub fn sync_data(&self) -> Result<()> { Ok(()) }
+                pub fn flush(&self) -> Result<()> { flush_req(0, 0) }
+                pub fn sync_all(&self) -> Result<()> { flush_req(0, 1) }
+                pub fn sync_data(&self) -> Result<()> { flush_req(0, 2) }
                 pub(crate) fn piece_offset_iter(&self) -> ValuePieceOffsetIter { ValuePieceOffsetIter(0) }
                 pub(crate) fn read_piece_only_size(&self, off: ValuePieceOffset) -> Result<ValuePieceSize> { let _ = idx(off); Ok(ValuePieceSize::new(16)) }
                 pub fn read_piece_only_value_length(&self, off: ValuePieceOffset) -> Result<ValueLength> { Ok(ValueLength::new(w().vals[idx(off)].vlen as u32)) }
@@ -144,12 +155,12 @@ pub mod filedb {
                     let i = idx(piece.offset);
                     #[cfg(kani)]
                     { let reloc: bool = kani::any(); if reloc { let o = fresh_off(false); kani::assume(o != piece.offset.as_value()); w().vals[i].off = o; piece.offset = ValuePieceOffset::new(o); } }
-                    store(i, &piece.value);
+                    touch(0); store(i, &piece.value);
                     Ok(piece)
                 }
-                pub fn delete_piece(&self, off: ValuePieceOffset) -> Result<ValuePieceSize> { let i = idx(off); w().vals[i].used = false; w().val_freed += 1; Ok(ValuePieceSize::new(16)) }
+                pub fn delete_piece(&self, off: ValuePieceOffset) -> Result<ValuePieceSize> { touch(0); let i = idx(off); w().vals[i].used = false; w().val_freed += 1; Ok(ValuePieceSize::new(16)) }
                 pub fn add_value_piece(&self, value: &[u8]) -> Result<ValuePiece> {
-                    let i = valloc(); let o = fresh_off(false);
+                    touch(0); let i = valloc(); let o = fresh_off(false);
                     { let r = &mut w().vals[i]; r.used = true; r.off = o; }
                     store(i, value);
                     Ok(ValuePiece { offset: ValuePieceOffset::new(o), size: ValuePieceSize::new(16), value: value.to_vec() })
@@ -183,15 +194,15 @@ pub mod filedb {
             impl HtxFile {
                 pub fn open_with_params<P: AsRef<Path>>(_p: P, _n: &str, _s: [u8; 8], _pa: &crate::filedb::FileDbParams) -> Result<Self> { Ok(Self(Rc::new(RefCell::new(HtxInner { file: HtxVarFile })))) }
                 pub fn read_fill_buffer(&self) -> Result<()> { Ok(()) }
-                pub fn flush(&self) -> Result<()> { Ok(()) }
-                pub fn sync_all(&self) -> Result<()> { Ok(()) }
-                pub fn sync_data(&self) -> Result<()> { Ok(()) }
+                pub fn flush(&self) -> Result<()> { flush_req(2, 0) }
+                pub fn sync_all(&self) -> Result<()> { flush_req(2, 1) }
+                pub fn sync_data(&self) -> Result<()> { flush_req(2, 2) }
                 pub fn read_hash_buckets_size(&self) -> Result<u64> { Ok(w().nb) }
                 pub fn read_key_piece_offset(&self, hash: HashValue) -> Result<KeyPieceOffset> { let w = w(); Ok(KeyPieceOffset::new(w.heads[(hash.as_value() % w.nb) as usize])) }
-                pub fn write_key_piece_offset(&self, hash: HashValue, off: KeyPieceOffset) -> Result<()> { let w = w(); w.heads[(hash.as_value() % w.nb) as usize] = off.as_value(); Ok(()) }
+                pub fn write_key_piece_offset(&self, hash: HashValue, off: KeyPieceOffset) -> Result<()> { touch(2); let w = w(); w.heads[(hash.as_value() % w.nb) as usize] = off.as_value(); Ok(()) }
                 pub fn read_item_count(&self) -> Result<u64> { Ok(w().count) }
-                pub fn write_item_count_up(&mut self) -> Result<()> { w().count += 1; Ok(()) }
-                pub fn write_item_count_down(&mut self) -> Result<()> { let w = w(); if w.count > 0 { w.count -= 1; } Ok(()) }
+                pub fn write_item_count_up(&mut self) -> Result<()> { touch(2); w().count += 1; Ok(()) }
+                pub fn write_item_count_down(&mut self) -> Result<()> { touch(2); let w = w(); if w.count > 0 { w.count -= 1; } Ok(()) }
                 pub fn htx_filling_rate_per_mill(&self) -> Result<(u64, u32)> { Ok((0, 0)) }
             }
         }
@@ -332,5 +343,47 @@ mod proofs {
         assert!(it.next().is_none());
         kani::cover!(n == 2, "two entries");
         core::mem::forget(it); core::mem::forget(rc);
+    }
+
+    #[kani::proof]
+    #[kani::unwind(5)]
+    fn flush_fault_step() {
+        let n = setup();
+        let mut m: FileDbXxxInner<DbBytes> = ok(FileDbXxxInner::open_with_params("x", "m", Default::default()));
+        let k = any_key();
+        let v: [u8; VMAX] = kani::any(); let vl: usize = kani::any(); kani::assume(vl <= VMAX);
+        let del: bool = kani::any();
+        if del { let _ = ok(m.del_kt(&build_kt(&k))); } else { ok(m.put_kt(&build_kt(&k), &v[..vl])); }
+        let touched = w().dirty;
+        let expect = model_get(&k);
+        // first attempt: one of the three store flushes may fail
+        let f: u8 = kani::any(); kani::assume(f < 3 || f == 255);
+        w().fault_at = f; w().calls = 0;
+        let kind: u8 = kani::any(); kani::assume(kind < 3);
+        let r = match kind { 0 => m.flush(), 1 => m.sync_all(), _ => m.sync_data() };
+        match r {
+            Ok(()) => {
+                assert!(f == 255, "a failing store flush was swallowed");
+                let w = w();
+                assert!(!w.dirty[0] && !w.dirty[1] && !w.dirty[2], "Ok flush left a store dirty");
+                if kind != 0 { let mut i = 0; while i < 3 { if touched[i] { assert!(w.synced[i] >= 1); } i += 1; } }
+                assert!(w.norder == 3 && w.order[0] == 0 && w.order[1] == 1 && w.order[2] == 2, "order value, key, table");
+            }
+            Err(e) => {
+                core::mem::forget(e);
+                assert!(f != 255, "flush failed without a fault");
+                // in-memory view still right
+                let g = ok(m.get_kt(&build_kt(&k)));
+                assert!(g.is_some() == expect.is_some());
+                // recovery: a later fault-free flush cleans everything
+                w().fault_at = 255;
+                ok(m.flush());
+                let w = w();
+                assert!(!w.dirty[0] && !w.dirty[1] && !w.dirty[2], "recovery flush left a store dirty");
+            }
+        }
+        kani::cover!(f == 1, "key store flush failed");
+        kani::cover!(f == 255 && kind == 2, "sync_data ok");
+        core::mem::forget(m);
     }
 }
